@@ -492,8 +492,12 @@ def truth_table(expr: ast.AST, atom_of, n_atoms: int):
             return all(vals) if isinstance(e.op, ast.And) else any(vals)
         if isinstance(e, ast.UnaryOp) and isinstance(e.op, ast.Not):
             return not ev(e.operand, env)
+        if isinstance(e, ast.IfExp):
+            return ev(e.body, env) if ev(e.test, env) else ev(e.orelse, env)
         a = atom_of(e)
         if a is None:
+            if isinstance(e, ast.Constant) and isinstance(e.value, bool):
+                return e.value
             raise Unmodelled(norm(e))
         i, pol = a
         return env[i] if pol else not env[i]
@@ -505,6 +509,20 @@ def truth_table(expr: ast.AST, atom_of, n_atoms: int):
     except Unmodelled as u:
         return str(u)
     return tuple(out)
+
+
+def predicate_table(fn: ast.AST, atom_of, n_atoms: int):
+    """truth_table of the boolean a function returns, whichever way it is spelled: one returned expression, or several
+    guarded returns (the disjunction over the return paths of path condition and returned value)."""
+    from . import sym
+    outs = [o for o in sym.outcomes(fn) if o.kind in ("return", "fall", "raise")]
+    if any(o.kind != "return" or o.value is None for o in outs) or not outs:
+        return "not every path returns a value"
+    disj = []
+    for o in outs:
+        conj = [c if pol else ast.UnaryOp(op=ast.Not(), operand=c) for c, pol in o.conds] + [o.value]
+        disj.append(conj[0] if len(conj) == 1 else ast.BoolOp(op=ast.And(), values=conj))
+    return truth_table(disj[0] if len(disj) == 1 else ast.BoolOp(op=ast.Or(), values=disj), atom_of, n_atoms)
 
 
 def atom_mapper(table: Dict[str, int]):
